@@ -30,7 +30,8 @@ HOOKS_REQUIRED = ["operator/logbook events", "evolve calls", "later replicates a
                   "anchor entered: RecurrentSelectionBreedingProgram.reset", "anchor entered: RecurrentSelectionBreedingProgram.advance",
                   "anchor entered: RecurrentSelectionBreedingProgram.evolve", "anchor entered: RecurrentSelectionBreedingProgram.initialize",
                   "cases with a manual history before evolve()", "cases with dict-subclass containers",
-                  "cases with int-subclass / numpy integer arguments", "pselect calls returning an empty mating configuration"]
+                  "cases with int-subclass / numpy integer arguments", "pselect calls returning an empty mating configuration",
+                  "evolve cases with loginit given as numpy.bool_ or 1/0"]
 RULE = ("one case = one programme built from a seeded initial state (classes: empty, scalars, nested lists/dicts/sets, "
         "numpy arrays incl. views/object arrays/NaN, plain objects, cross-container aliasing and cycles, non-string keys, "
         "a pair of pybrops matrices, and 'library' states whose five dicts hold what the containers are documented to hold: "
@@ -48,6 +49,8 @@ RULE = ("one case = one programme built from a seeded initial state (classes: em
         "the mating configuration returned by pselect is an EMPTY dict (or empty dict subclass) never / in ~40 % of the cycles / in every "
         "cycle (2:2:1 over runs), and ~3 % of the operator calls return five brand-new empty containers: order, hand-over and log "
         "clauses are judged regardless of the truthiness of what operators return; "
+        "the flags loginit (true and false) and verbose are spelled True/False, numpy.bool_ or 1/0 (2:1:1 over runs): log_initialize is "
+        "expected for every truthy spelling and must be absent for every falsy one; "
         "scenarios: evolve, evolve twice, evolve then advance, operator raising mid-run then evolve again, reset()+advance(); "
         "about a third of the cases first get a manual history on the live programme (reset(), reset()+advance(), start_* "
         "re-assigned to new objects or edited in place, initialize() again with a new initop state, working containers edited "
@@ -56,7 +59,7 @@ RULE = ("one case = one programme built from a seeded initial state (classes: em
 ASSUME = ["the time index is 0 at the initial evaluation of a replicate and g in generation g (1-based), i.e. it grows by one per cycle",
           "'the state returned by its predecessor' is decided by value (deep digest of the five containers at hand-over == digest "
           "when the predecessor returned); passing the identical objects is recorded but not required",
-          "log_initialize is expected iff loginit is true (default true)",
+          "log_initialize is expected iff loginit is truthy (default true), whatever its spelling (True, numpy.bool_(True), 1)",
           "lbook.rep must be larger by one in each successive replicate (from the anchored mechanism; the statement only says 'logging after every step')",
           "a mutable object reachable both from a replicate's first state and from the stored initial state (or an earlier replicate's "
           "state) contradicts independence, because the property quantifies over operators that mutate what they receive",
@@ -124,7 +127,7 @@ class Monitor(object):
         self.raise_at = None
         self.inplace_done = False   # some in-place mutation happened in an earlier replicate
         self.haslib, self.start_ok = False, True
-        self.contkind, self.intkind = "dict", "int"
+        self.contkind, self.intkind, self.flagkind = "dict", "int", "True/False"
         self.typecls = "plain dict containers, int arguments"
         self.hist = ""              # "/after manual ..." once the caller worked on the programme by hand before evolve()
         self.inplace_now = False
@@ -246,6 +249,14 @@ class Monitor(object):
         sh = [type(self.current[i]).__name__ for i in cur & set(self.earlier)]
         ctx.check("C20.fresh.noalias", not sh, SITE + "reset", "a replicate's first state shares no mutable object with an earlier replicate's state", "any operators" + self.hist,
                   witness=self.witness(shared_object_types=sorted(set(sh)), n_shared=len(sh), replicate=exp.r), coords=self.coords)
+
+    def spell(self, flag):
+        """A documented boolean flag in the run's spelling: True/False, numpy.bool_ (what a comparison yields) or 1/0."""
+        if self.flagkind == "numpy.bool_":
+            return numpy.bool_(flag)
+        if self.flagkind == "1/0":
+            return int(bool(flag))
+        return bool(flag)
 
     def as_count(self, n):
         """nrep / ngen / t_cur as the run's integer type (the programme's documented checks are isinstance-based)."""
@@ -517,7 +528,7 @@ def _evolve(ctx, mon, bp, lb, nrep, ngen, loginit, verbose, injected):
     """Call evolve under the monitor.  Returns True when the call returned normally."""
     kw = {}
     if loginit is not None:
-        kw["loginit"] = loginit
+        kw["loginit"] = mon.spell(loginit)
     rep0 = lb.rep
     mon.lbook = lb
     mon.expect_evolve(nrep, ngen, loginit is None or bool(loginit), rep0)
@@ -526,7 +537,7 @@ def _evolve(ctx, mon, bp, lb, nrep, ngen, loginit, verbose, injected):
     try:
         if verbose:
             with contextlib.redirect_stdout(io.StringIO()):
-                bp.evolve(a_nrep, a_ngen, lb, verbose=True, **kw)
+                bp.evolve(a_nrep, a_ngen, lb, verbose=mon.spell(True), **kw)
         else:
             bp.evolve(a_nrep, a_ngen, lb, **kw)
     except Boom as e:
@@ -687,6 +698,11 @@ def one_case(ctx, c):
         ctx.hook("cases with int-subclass / numpy integer arguments")
     h = Harness(mon, g, beh, log_mutates)
     h.contkind = contkind
+    mon.flagkind = ["True/False", "True/False", "numpy.bool_", "1/0"][int(ctx.rng("flags", c).integers(0, 4))]
+    params["flag_spelling"] = mon.flagkind
+    ctx.sumnote("flag spelling: " + mon.flagkind)
+    if mon.flagkind != "True/False" and loginit is not None:
+        ctx.hook("evolve cases with loginit given as numpy.bool_ or 1/0")
     h.gm = ctx.rng("falsy", c)
     h.mcfg_mode = ["never empty", "never empty", "sometimes empty", "sometimes empty", "always empty"][int(h.gm.integers(0, 5))]
     params["mating_configuration"] = h.mcfg_mode
